@@ -234,7 +234,8 @@ func init() {
 			append(append(append(b, snapC...), snapH...), bootC...)))
 		fmt.Print(regexPrelude)
 		for _, v := range [][2]string{{"almostValidName", "almost_valid_name"}, {"validInstanceKey", "valid_instance_key"},
-			{"validHook", "valid_hook"}, {"ValidApp", "valid_app"}} {
+			{"validHook", "valid_hook"}, {"ValidApp", "valid_app"}, {"validPlugSlotIface", "valid_plug_slot_iface"},
+			{"ValidAlias", "valid_alias"}, {"ValidSnapID", "valid_snap_id"}, {"ValidProvenance", "valid_provenance"}} {
 			pat := strConst(f, mustCompileArg(f, v[0]))
 			fmt.Printf("(* %s = %s *)\nDefinition %s : regex := %s.\n", v[0], strings.ReplaceAll(strconv.Quote(pat), "*)", "* )"), v[1], reAnchored(pat, syntax.Perl))
 		}
@@ -265,7 +266,44 @@ func init() {
 		}
 		fmt.Printf("(* ValidateSnap: len(name) < %s || len(name) > %s *)\nDefinition go_snap_min_len : nat := %s.\nDefinition go_snap_max_len : nat := %s.\n", lo, hi, lo, hi)
 
+		// validQuotaGroupName must be almostValidName itself, and ValidateQuotaGroup's bounds
+		if id, ok := findVar(f, "validQuotaGroupName").(*ast.Ident); !ok || id.Name != "almostValidName" {
+			die("validQuotaGroupName is no longer almostValidName")
+		}
+		qd := findFunc(f, "ValidateQuotaGroup")
+		if qd == nil {
+			die("ValidateQuotaGroup not found")
+		}
+		qlo, qhi := "", ""
+		ast.Inspect(qd, func(n ast.Node) bool {
+			if be, ok := n.(*ast.BinaryExpr); ok {
+				if c, ok := be.X.(*ast.CallExpr); ok {
+					if id, ok := c.Fun.(*ast.Ident); ok && id.Name == "len" {
+						if v, ok := intLit(be.Y); ok {
+							if be.Op == token.LSS {
+								qlo = v
+							} else if be.Op == token.GTR {
+								qhi = v
+							}
+						}
+					}
+				}
+			}
+			return true
+		})
+		if qlo == "" || qhi == "" {
+			die("ValidateQuotaGroup: length bounds not found")
+		}
+		fmt.Printf("Definition go_quota_min_len : nat := %s.\nDefinition go_quota_max_len : nat := %s.\n", qlo, qhi)
+
 		// snap-confine
+		hb := cFuncBody(snapC, "snap.c", "sc_is_hook_security_tag")
+		hlit := must1(hb, "snap.c", "whitelist_re literal of sc_is_hook_security_tag", `whitelist_re\s*=\s*"((?:[^"\\]|\\.)*)"`)
+		hpat, herr := strconv.Unquote(`"` + hlit + `"`)
+		if herr != nil {
+			die("snap.c: cannot unquote the hook tag regex: %v", herr)
+		}
+		fmt.Printf("(* sc_is_hook_security_tag: %s *)\nDefinition sc_hook_tag_re : regex := %s.\n", strings.ReplaceAll(strconv.Quote(hpat), "*)", "* )"), reAnchored(hpat, syntax.OneLine))
 		body := cFuncBody(snapC, "snap.c", "sc_security_tag_validate")
 		lit := must1(body, "snap.c", "whitelist_re literal", `whitelist_re\s*=\s*"((?:[^"\\]|\\.)*)"`)
 		pat, err := strconv.Unquote(`"` + lit + `"`)
